@@ -37,12 +37,50 @@ class Holder:
                 self.sel_entry = fx.view(v.d["term"]["resolved"])
                 self.sel_call = v
         if self.sel_entry is None:
+            self._field_out_param(fx)
+        if self.sel_entry is None:
             ctx.missing(rule, "selection", "create_presentation does not assign hs_disclosures from a crate-local selection function")
             return
         self.sel_fns = [f for f in fx.subjects(sorted(cg.reachable_from(self.g, [self.sel_entry.name]))) if f.name.startswith("holder::") and f.kind != "closure"
                         and ((f.raw.get("ret_ty") or "").startswith("std::result::Result<" + VEC_S) or self.out_param(f) is not None)]
         self.sel_all = [f for f in fx.subjects(sorted(cg.reachable_from(self.g, [self.sel_entry.name]))) if f.name.startswith("holder::")]
         self.ok = True
+
+    def _field_out_param(self, fx):
+        """the field itself is the out-parameter: `self.hs_disclosures.clear(); select(.., &mut self.hs_disclosures)?`. Accepted when the
+        selection call is dominated by an emptying of the field (clear / assignment of an empty vector) and nothing else borrows the field
+        mutably in between"""
+        P = self.present
+        pv = vals(P)
+        isf = lambda x: peel(x).kind == "field" and peel(x).d.get("name") == "hs_disclosures"
+        cands = []
+        for b, t in P.calls():
+            if not t.get("resolved_local") or t.get("resolved") not in fx.fns:
+                continue
+            G = fx.view(t["resolved"])
+            k = self.out_param(G)
+            n = pv.call_node(b)
+            if k is not None and k - 1 < len(n.kids) and isf(n.kids[k - 1]):
+                cands.append((b, n, G))
+        if len(cands) != 1:
+            return
+        b, n, G = cands[0]
+        empt = [cb for cb, ct in P.calls() if ct.get("name") in ("clear",) and pv.call_node(cb).kids and isf(pv.call_node(cb).kids[0])]
+        for w in (common.struct_field_writes(fx, HSTRUCT, "hs_disclosures", fns=[P]) or []):
+            if w["how"] in ("assign", "calldest") and w["value"] is not None:
+                v = peel(w["value"])
+                if v.kind == "call" and v.d["term"].get("name") in ("new", "default") and not v.kids:
+                    empt.append(w["bb"])
+        doms = [e for e in empt if b not in cfg.reachable(P, [0], removed_blocks=[e])]
+        if not doms:
+            return
+        e = doms[-1]
+        between = cfg.reach_strict(P, e) - {b}
+        for ob, ot in P.calls():
+            if ob in between and ob != e and b in cfg.reach_strict(P, ob) and any(isf(k_) for k_ in pv.call_node(ob).kids) and ot.get("name") not in ("len", "is_empty", "iter", "clone"):
+                return
+        self.sel_entry = G
+        self.sel_call = n
 
     def out_param(self, fn):
         """index of a `&mut Vec<String>` parameter through which the selection is handed back (the function then returns Result<()>)"""
